@@ -870,7 +870,13 @@ class Generator(TreeListener):
                             sl = for_loop.index_variable
 
                 if sl is None:
-                    sl = self.get_integer(index) if index is not None else None
+                    if index is not None:
+                        sl = self.get_integer(index)
+                        if sl is None:
+                            # N.B. Not to be confused with a dimension without subscript
+                            raise ValueError(
+                                "Subscript {} of symbol {} has no known value.".format(index, s.name())
+                            )
 
                     if sl is None and dim is not None:
                         sl = slice(None, None, 1)
